@@ -170,6 +170,8 @@ type Recorder struct {
 	mu   sync.Mutex
 	Puts []PutRecord
 	on   bool
+	// AddrOnly: do not copy chunk data into the records (for very large uploads)
+	AddrOnly bool
 }
 
 func (r *Recorder) Put(ctx context.Context, mode storage.ModePut, chs ...boson.Chunk) ([]bool, error) {
@@ -178,7 +180,11 @@ func (r *Recorder) Put(ctx context.Context, mode storage.ModePut, chs ...boson.C
 	if r.on {
 		root := sctx.GetRootHash(ctx)
 		for i, c := range chs {
-			r.Puts = append(r.Puts, PutRecord{Mode: mode, Root: root.String(), Addr: c.Address().String(), Data: append([]byte(nil), c.Data()...),
+			var data []byte
+			if !r.AddrOnly {
+				data = append([]byte(nil), c.Data()...)
+			}
+			r.Puts = append(r.Puts, PutRecord{Mode: mode, Root: root.String(), Addr: c.Address().String(), Data: data,
 				Existed: err == nil && i < len(exist) && exist[i]})
 		}
 	}
@@ -310,6 +316,12 @@ func (n *Node) UploadFile(name string, content []byte, encrypt, pin bool) (boson
 		h[api.AuroraPinHeader] = "true"
 	}
 	return parseRef(n.do("POST", "/aurora?name="+name, bytes.NewReader(content), h))
+}
+
+// UploadReader uploads one file whose content comes from a reader (for content too large to hold).
+func (n *Node) UploadReader(name string, content io.Reader) (boson.Address, error) {
+	h := map[string]string{"Content-Type": "application/octet-stream"}
+	return parseRef(n.do("POST", "/aurora?name="+name, content, h))
 }
 
 // DirFile is one file of a directory upload.
